@@ -274,6 +274,12 @@ class DocGen:
                 '<!doctype html>', '<!DOCTYPE p [\n<!ENTITY e "x">\n]>']) + '\n'
             self.knobs.add('doctype')
         d += self.content(0)
+        if self.rng.random() < .05:
+            # in a str U+FEFF is a character like any other, also as the very first one (only byte input has a byte-order mark);
+            # what follows it is then not at the start of the document, so there is no XML declaration
+            d = '\ufeff' + d
+            xml = False
+            self.knobs.add('leading-U+FEFF')
         return d, xml
 
 
